@@ -561,6 +561,43 @@ func (c *Ctx) checkFinallyKeys(r *Report, rule, rel string) {
 				return
 			}
 			pidx := paramIndex(ctor, p)
+			// a shared set-up method that the constructors call with their own key parameter: verify each constructor
+			type cp struct {
+				ctor *ssa.Function
+				pidx int
+			}
+			pairs := []cp{{ctor, pidx}}
+			if ctor.Signature.Results().Len() != 1 || structOf(ctor.Signature.Results().At(0).Type()) == nil {
+				pairs = nil
+				for _, g := range c.repoFuncs(rel) {
+					if g.Signature.Results().Len() != 1 || structOf(g.Signature.Results().At(0).Type()) == nil {
+						continue
+					}
+					allInstrs(g, func(j ssa.Instruction) {
+						cj, ok := j.(ssa.CallInstruction)
+						if !ok || staticCallee(cj.Common()) != ctor || pidx >= len(cj.Common().Args) {
+							return
+						}
+						if gp, ok := cj.Common().Args[pidx].(*ssa.Parameter); ok && gp.Parent() == g {
+							pairs = append(pairs, cp{g, paramIndex(g, gp)})
+						} else {
+							pairs = append(pairs, cp{g, -1})
+						}
+					})
+				}
+				if len(pairs) == 0 {
+					r.bad(rule, key, c.instrPos(i), "the function that builds the completion callback is neither a transaction constructor nor called by one")
+					return
+				}
+			}
+			for _, pr := range pairs {
+			ctor, pidx := pr.ctor, pr.pidx
+			key := fnKey(ctor) + ":finally-deletes-own-key"
+			if pidx < 0 {
+				r.bad(rule, key, c.instrPos(i), "the key deleted on completion is not the constructor's own key parameter")
+				continue
+			}
+			r.fn(ctor)
 			// every call site: result stored under the same value passed for p
 			okAll, cnt := true, 0
 			detail := ""
@@ -598,6 +635,7 @@ func (c *Ctx) checkFinallyKeys(r *Report, rule, rel string) {
 				r.ok(rule, key, c.instrPos(i), fmt.Sprintf("deletes parameter %s, which all %d callers use as the store key", p.Name(), cnt))
 			} else {
 				r.bad(rule, key, c.instrPos(i), "the completion callback does not delete the key the transaction is stored under: "+detail)
+			}
 			}
 		})
 	}
